@@ -62,9 +62,12 @@ func (s *BarGraph) SetKeys(keyItems ...string) {
 
 // Writes bar graph values, assuming vals map to the keyItems for each index
 func (s *BarGraph) WriteBar(idx int, key string, vals ...int64) {
-	// Update max key-len
+	redraw := false
+
+	// Update max key-len (rows drawn with a narrower key column need a re-draw to stay aligned)
 	if klen := color.StrLen(key); klen > s.maxKeyLength {
 		s.maxKeyLength = klen
+		redraw = true
 	}
 
 	// Save row data for re-draw's
@@ -78,7 +81,6 @@ func (s *BarGraph) WriteBar(idx int, key string, vals ...int64) {
 	}
 
 	// Compute the updated max
-	redraw := false
 	{
 		var max int64
 		if s.Stacked {
